@@ -38,6 +38,10 @@ def float_to_fr(tok):
 # ------------------------------------------------------------------------------------------ instances
 # instance: dict(id, kind 'I'|'S', vs=[(des,wt,scl)], cs=[(l,r,gap,eq)], ops=[('S',)|('F',)|('A',l,r,gap,eq)|('D',i,d)|('W',i,w)], tag)
 # ('W', i, w): the caller assigns Variable::weight of variable i (w > 0) between solves (the pin / lock idiom)
+# ('R', [j..]): object reuse - the IncSolver is destroyed and a new one is constructed over the same Variable objects and the
+#               listed Constraint OBJECTS (j = index in creation order: the initial cs, then one per 'A' op);
+# ('P', j): addConstraint() of the existing constraint object j (not in the current solver).  Results list flags in the
+#           order of the current solver's constraint list (cons_at).
 def inst_cpp_text(ins):
     out = ['N %d %d %d %d %s' % (ins['id'], len(ins['vs']), len(ins['cs']), len(ins['ops']), ins['kind'])]
     for d, w, s in ins['vs']:
@@ -49,6 +53,10 @@ def inst_cpp_text(ins):
             out.append('o ' + o[0])
         elif o[0] == 'A':
             out.append('o A %d %d %s %d' % (o[1], o[2], fr_dec(o[3]), 1 if o[4] else 0))
+        elif o[0] == 'R':
+            out.append('o R %d %s' % (len(o[1]), ' '.join(str(j) for j in o[1])))
+        elif o[0] == 'P':
+            out.append('o P %d' % o[1])
         else:
             out.append('o %s %d %s' % (o[0], o[1], fr_dec(o[2])))
     return '\n'.join(out) + '\n'
@@ -65,6 +73,10 @@ def inst_drv_text(ins, reals):
             out.append('o ' + o[0])
         elif o[0] == 'A':
             out.append('o A %d %d %s %d' % (o[1], o[2], fr_hex(o[3]), 1 if o[4] else 0))
+        elif o[0] == 'R':
+            out.append('o R %d %s' % (len(o[1]), ' '.join(str(j) for j in o[1])))
+        elif o[0] == 'P':
+            out.append('o P %d' % o[1])
         else:
             out.append('o %s %d %s' % (o[0], o[1], fr_hex(o[2])))
     for r in reals:
@@ -77,17 +89,42 @@ def inst_drv_text(ins, reals):
 
 
 def cons_at(ins, k):
-    """constraints and variables in force when op k runs"""
-    cs = list(ins['cs'])
+    """constraints (in the order of the current solver's list) and variables in force when op k runs"""
+    objs = list(ins['cs'])
+    cur = list(range(len(objs)))
     vs = [list(v) for v in ins['vs']]
     for o in ins['ops'][:k + 1]:
         if o[0] == 'A':
-            cs.append((o[1], o[2], o[3], o[4]))
+            objs.append((o[1], o[2], o[3], o[4]))
+            cur.append(len(objs) - 1)
+        elif o[0] == 'P':
+            cur.append(o[1])
+        elif o[0] == 'R':
+            cur = list(o[1])
         elif o[0] == 'D':
             vs[o[1]][0] = o[2]
         elif o[0] == 'W':
             vs[o[1]][1] = o[2]
-    return vs, cs
+    return vs, [objs[j] for j in cur]
+
+
+def valid_history(ins):
+    """object-reuse ops refer to existing constraint objects; an object is in a solver's list at most once"""
+    nobj = len(ins['cs'])
+    cur = set(range(nobj))
+    for o in ins['ops']:
+        if o[0] == 'A':
+            cur.add(nobj)
+            nobj += 1
+        elif o[0] == 'P':
+            if o[1] >= nobj or o[1] in cur:
+                return False
+            cur.add(o[1])
+        elif o[0] == 'R':
+            if len(set(o[1])) != len(o[1]) or any(j >= nobj for j in o[1]):
+                return False
+            cur = set(o[1])
+    return True
 
 
 def parse_cpp(txt):
@@ -509,6 +546,41 @@ def gen_instance(rng, iid, nmax, kind='I', hist=True, weights=False):
                    ('+wt' if any(o[0] == 'W' for o in ops) else '')}
 
 
+def gen_reuse_instance(rng, iid, nmax):
+    """Variable and Constraint OBJECTS re-used across successive IncSolvers, as drivers that keep "what is satisfiable"
+    do (cf. colafd makeFeasible, aca, orthogonal_topology - they re-use objects and reset Constraint::unsatisfiable):
+    solve with solver A over all constraints; destroy it; build solver B on the same variables with a subset of the
+    constraint objects; addConstraint the remaining objects (which may have ended up ACTIVE in A) one by one, with
+    solves in between.  The model simply starts a fresh state at R: per-object flags surviving from the earlier
+    solver are hidden state that the property's statement has no room for."""
+    g = gen_instance(rng, iid, nmax, 'I', False)
+    if rng.chance(1, 3):
+        # everything wants to sit at one point: every constraint of a chain ends up active in solver A
+        d = rng.choice(DES)
+        g['vs'] = [(d, w, s) for (_, w, s) in g['vs']]
+    m = len(g['cs'])
+    sf = lambda: ('S',) if rng.chance(1, 2) else ('F',)
+    ops = [sf()]
+    rounds = 2 if rng.chance(1, 4) else 1
+    for _ in range(rounds):
+        ids = rng.shuffle(list(range(m)))
+        keep = rng.choice([0, 0, m // 2, max(m - 1, 0), rng.below(m + 1)])
+        ops.append(('R', sorted(ids[:keep]) if rng.chance(1, 2) else ids[:keep]))
+        if rng.chance(1, 2):
+            ops.append(sf())
+        for j in ids[keep:]:
+            ops.append(('P', j))
+            if rng.chance(1, 2):
+                ops.append(sf())
+            if rng.chance(1, 6):
+                ops.append(('D', rng.below(len(g['vs'])), rng.choice(DES)))
+        if ops[-1][0] not in 'SF':
+            ops.append(sf())
+    g['ops'] = ops
+    g['tag'] = g['tag'] + '+reuse'
+    return g
+
+
 def gen_exhaustive(level):
     """the finite families swept completely: n=2 all desired positions in {-1,0,1,2}^2 and all constraint sequences of
     length <= 3 over (2 ordered pairs x 4 gaps); n=3 four desired-position patterns x all sequences of length <= L
@@ -568,12 +640,26 @@ def shrink(ins, fails, budget=400):
     calls = [0]
 
     def f(t):
+        if not valid_history(t):
+            return False
         calls[0] += 1
         return calls[0] <= budget and fails(t)
+    reuse = any(o[0] in 'RP' for o in ins['ops'])      # constraint-object numbering must stay stable then
     changed = True
     while changed and calls[0] <= budget:
         changed = False
         for j in range(len(ins['cs']) - 1, -1, -1):
+            if reuse:
+                # delete object j only if no later op needs the numbering: drop it from every R list, shift the larger ids
+                if any(o[0] == 'P' and o[1] == j for o in ins['ops']):
+                    continue
+                t = copy.deepcopy(ins)
+                del t['cs'][j]
+                g2 = lambda i: i - 1 if i > j else i
+                t['ops'] = [('R', [g2(i) for i in o[1] if i != j]) if o[0] == 'R' else (('P', g2(o[1])) if o[0] == 'P' else o) for o in t['ops']]
+                if f(t):
+                    ins, changed = t, True
+                continue
             t = copy.deepcopy(ins)
             del t['cs'][j]
             if f(t):
@@ -581,9 +667,11 @@ def shrink(ins, fails, budget=400):
         for k in range(len(ins['ops']) - 2, -1, -1):
             if k >= len(ins['ops']) - 1:
                 continue
+            if reuse and ins['ops'][k][0] == 'A':
+                continue
             t = copy.deepcopy(ins)
             del t['ops'][k]
-            if t['ops'] and t['ops'][0][0] in 'SFADW' and f(t):
+            if t['ops'] and t['ops'][0][0] in 'SFADWRP' and f(t):
                 ins, changed = t, True
         for v in range(len(ins['vs']) - 1, -1, -1):
             used = any(c[0] == v or c[1] == v for c in ins['cs']) or \
@@ -675,6 +763,10 @@ def parse_cpp_instances(txt):
                 cur['ops'].append((t[1],))
             elif t[1] == 'A':
                 cur['ops'].append(('A', int(t[2]), int(t[3]), Fr(t[4]), t[5] == '1'))
+            elif t[1] == 'R':
+                cur['ops'].append(('R', [int(x) for x in t[3:3 + int(t[2])]]))
+            elif t[1] == 'P':
+                cur['ops'].append(('P', int(t[2])))
             else:
                 cur['ops'].append((t[1], int(t[2]), Fr(t[3])))
     return out
